@@ -573,7 +573,12 @@ def sym_log(t):
     for r in CTX.reps.get(key(c), []):
         if r.c > 0 and CTX.valid(z3.And(eq_formula(r * r, t), r.n * r.d > 0)):
             return sym_log(r) * Sym.const(2.0)
-    return ufun("log", t, math.log(t.c))
+    # sign axioms: log t > 0 iff t > 1, log t < 0 iff t < 1 (t = n/d)
+    def ax(v, a):
+        gt1 = (a.n - a.d) * a.d > 0
+        lt1 = (a.n - a.d) * a.d < 0
+        return [z3.Implies(gt1, v > 0), z3.Implies(lt1, v < 0)]
+    return ufun("log", t, math.log(t.c), ax)
 
 
 def sym_softplus(t):
